@@ -3,10 +3,12 @@ Channel `num`: runs the model of Compare / NumericDo (instantiated with Lean's n
 binary64 `Float`) and the mathematical spec on one op line.
 -/
 import ZygoVerif.Model.Num
+import ZygoVerif.Model.GoSem
+import ZygoVerif.Generated.NumGo
 import ZygoVerif.Spec.MathOrder
 import ZygoVerif.Driver.Proto
 namespace ZygoVerif.Driver.Num
-open ZygoVerif.Num ZygoVerif.Proto
+open ZygoVerif.Num ZygoVerif.Proto ZygoVerif.GoSem
 
 /-- Native instantiation. `float64(x)` for a 64-bit integer is the C conversion. -/
 def native : FloatSem where
@@ -84,8 +86,71 @@ def specArith (ev : Bool) (op : ArOp) (a b : V) : String :=
   | .uint x, .uint y => go false x.toNat y.toNat
   | _, _ => "-"
 
+/-! Ops `gcmp` / `gar` / `gint`: the functions TRANSLATED from the Go source
+(`Generated/NumGo.lean`, or their last-good copies where the translator refused) run on the
+same operands as the Go originals `(*Zlisp).Compare`, `NumericDo`, `IntegerDo` called
+directly. This validates the translator: a wrong translation shows up as a correspondence
+break, not as a false proof. -/
+
+abbrev GV := Sx Float
+
+def parseGV (t h : String) : Option GV := do
+  let n ← parseHex? h
+  match t with
+  | "i" => some (.int (BitVec.ofNat 64 n))
+  | "u" => some (.uint (BitVec.ofNat 64 n))
+  | "c" => some (.char (BitVec.ofNat 32 n))
+  | "f" => some (.flt (Float.ofBits (UInt64.ofNat n)))
+  | "b" => some (.bool (n != 0))
+  | _ => none
+
+def showGV : GV → String
+  | .int v => s!"i {toHex v.toNat}"
+  | .uint v => s!"u {toHex v.toNat}"
+  | .char v => s!"c {toHex v.toNat}"
+  | .flt f => if f.isNaN then "f nan" else s!"f {toHex f.toBits.toNat}"
+  | .bool b => showB b
+
+def parseNumericOp : String → Option NumericOp
+  | "+" => some .Add | "-" => some .Sub | "*" => some .Mult | "/" => some .Div | _ => none
+
+def parseIntegerOp : String → Option IntegerOp
+  | "sll" => some .ShiftLeft | "sra" => some .ShiftRightArith | "srl" => some .ShiftRightLog
+  | "mod" => some .Modulo | "and" => some .BitAnd | "or" => some .BitOr | "xor" => some .BitXor
+  | _ => none
+
+def handleGen (toks : List String) : Option String :=
+  match toks with
+  | "gcmp" :: ta :: ha :: tb :: hb :: [] => do
+    let a ← parseGV ta ha
+    let b ← parseGV tb hb
+    some (showRes (fun (v : BitVec 64) => toString v.toInt) false (NumGo.Compare native a b))
+  | "gar" :: op :: ta :: ha :: tb :: hb :: [] => do
+    let op ← parseNumericOp op
+    let a ← parseGV ta ha
+    let b ← parseGV tb hb
+    some (showRes showGV false (NumGo.NumericDo native op a b))
+  | "gint" :: op :: ta :: ha :: tb :: hb :: [] => do
+    let op ← parseIntegerOp op
+    let a ← parseGV ta ha
+    let b ← parseGV tb hb
+    some (showRes showGV false (NumGo.IntegerDo native op a b))
+  | _ => none
+
+/-- `num meta`: what the translator refused (aliases of the last-good copy) and its problems;
+read by checks/C07.py from the very binary the ops run through. -/
+def metaLine : String :=
+  let r := NumGo.refused.map (fun (n, c, p) => s!"{n}@{p}: {c}")
+  s!"refused={NumGo.refused.length} problems={NumGo.problems.length} translated={NumGo.goSigs.length - NumGo.refused.length}" ++
+    " | " ++ " ;; ".intercalate r ++ " | " ++ " ;; ".intercalate NumGo.problems
+
 def handle (toks : List String) : String :=
   match toks with
+  | "meta" :: _ => metaLine ++ "\t-"
+  | "gcmp" :: _ | "gar" :: _ | "gint" :: _ =>
+    match handleGen toks with
+    | some m => s!"{m}\t-"
+    | none => "bad-op\t-"
   | "cmp" :: mode :: op :: ta :: ha :: tb :: hb :: [] =>
     match parseCmp op, parseV ta ha, parseV tb hb with
     | some op, some a, some b =>
